@@ -283,6 +283,7 @@ def build_in_process(root: str, sources: list[tuple[str, str]], opts_kw: dict[st
         return stale, fresh
 
     B.find_stale_sccs = fss  # type: ignore[assignment]
+    unhook_rt = _hook_roundtrip(B, opts_kw.get("cache_dir"), ctl, out)
     try:
         cli_args = opts_kw.pop("cli_args", None)
         nosrc = opts_kw.pop("cli_args_nosrc", None)
@@ -326,10 +327,127 @@ def build_in_process(root: str, sources: list[tuple[str, str]], opts_kw: dict[st
             out["rechecked"] = []
             out["stale"] = []
         out["messages"] = msgs
+        unhook_rt(True)
     finally:
         B.create_metastore = orig_create  # type: ignore[assignment]
         B.find_stale_sccs = orig_fss  # type: ignore[assignment]
+        unhook_rt(False)
+    if out.get("roundtrip") and not out.get("crash"):
+        # every driver treats a crash as a violation of its property: a cache record that does not read back as it
+        # was written is reported the same way
+        out["crash"] = "cache record round trip: " + "; ".join(out["roundtrip"][:4])
     return out
+
+
+def _canon(x: Any) -> Any:
+    """Representation-insensitive only where JSON forces it (tuple = list); key and scalar TYPES are kept."""
+    if isinstance(x, (list, tuple)):
+        return [_canon(y) for y in x]
+    if isinstance(x, dict):
+        return {"%s:%s" % (type(k).__name__, k): _canon(v) for k, v in sorted(x.items(), key=lambda kv: repr(kv[0]))}
+    if isinstance(x, (bytes, bytearray)):
+        return "bytes:" + bytes(x).hex()
+    if isinstance(x, (set, frozenset)):
+        return {"set": sorted(repr(y) for y in x)}
+    return "%s:%r" % (type(x).__name__, x)
+
+
+def _hook_roundtrip(B: Any, cache_dir: Any, ctl: dict[str, Any], out: dict[str, Any]) -> Any:
+    """Incremental.tla: Load(m) returns the record the last committed WMeta / WEx wrote. Bound here object by object:
+    every CacheMeta / CacheMetaEx the build READS (CacheMeta.read / deserialize, CacheMetaEx.read / deserialize) must
+    equal, field by field, the object that was last handed to write_cache_meta / write_cache_meta_ex for that entry
+    (remembered across runs in a side file next to the cache directory). Switched off (and the side file marked
+    tainted) by runs with injected faults, where the store legitimately holds older records."""
+    if not cache_dir or cache_dir == os.devnull:
+        return lambda ok: None
+    import mypy.cache as MC
+
+    side = cache_dir.rstrip("/") + ".verif_objs.json"
+    faulty = (ctl.get("kill_after") is not None or bool(ctl.get("fail_writes")) or not ctl.get("record", True)
+              or os.environ.get("VERIF_NO_ROUNDTRIP") == "1")
+    state: dict[str, Any] = {"tainted": False, "meta": {}, "ex": {}, "files": {}}
+    if os.path.exists(side):
+        try:
+            with open(side) as f:
+                state = json.load(f)
+        except Exception:
+            state["tainted"] = True
+    if faulty or ctl.get("parallel"):
+        state["tainted"] = True
+        with open(side, "w") as f:
+            json.dump({"tainted": True, "meta": {}, "ex": {}, "files": {}}, f)
+    if state["tainted"]:
+        return lambda ok: None
+    out["roundtrip"] = []
+    out["roundtrip_reads"] = 0
+    last = {"data_file": None}
+    pending: dict[str, Any] = {"meta": {}, "ex": {}, "files": {}}
+
+    def compare(kind: str, key: str, obj: Any) -> None:
+        want = state[kind].get(key)
+        if want is None or obj is None:
+            return
+        got = {k: _canon(v) for k, v in vars(obj).items()}
+        out["roundtrip_reads"] += 1
+        for k in sorted(set(want) | set(got)):
+            if want.get(k) != got.get(k):
+                out["roundtrip"].append("%s.%s of %s read back as %s, written as %s" % (
+                    "CacheMeta" if kind == "meta" else "CacheMetaEx", k, os.path.basename(key), str(got.get(k))[:120], str(want.get(k))[:120]))
+
+    origs = {}
+
+    def wrap_read(cls: Any, name: str, kind: str) -> None:
+        orig = cls.__dict__[name].__func__
+        origs[(cls, name)] = cls.__dict__[name]
+
+        def rd(c: Any, *a: Any) -> Any:
+            obj = orig(c, *a)
+            if kind == "meta":
+                last["data_file"] = a[1] if len(a) > 1 else None
+                if last["data_file"]:
+                    compare("meta", last["data_file"], obj)
+            elif last["data_file"]:
+                compare("ex", last["data_file"], obj)
+            return obj
+
+        setattr(cls, name, classmethod(rd))
+
+    wrap_read(MC.CacheMeta, "read", "meta")
+    wrap_read(MC.CacheMeta, "deserialize", "meta")
+    wrap_read(MC.CacheMetaEx, "read", "ex")
+    wrap_read(MC.CacheMetaEx, "deserialize", "ex")
+    orig_wm, orig_wx = B.write_cache_meta, B.write_cache_meta_ex
+
+    def wm(meta: Any, manager: Any, meta_file: str) -> None:
+        pending["meta"][meta.data_file] = {k: _canon(v) for k, v in vars(meta).items()}
+        pending["files"][meta_file] = meta.data_file
+        return orig_wm(meta, manager, meta_file)
+
+    def wx(meta_file: str, meta_ex: Any, manager: Any) -> None:
+        df = pending["files"].get(meta_file) or state["files"].get(meta_file)
+        if df:
+            pending["ex"][df] = {k: _canon(v) for k, v in vars(meta_ex).items()}
+        return orig_wx(meta_file, meta_ex, manager)
+
+    B.write_cache_meta, B.write_cache_meta_ex = wm, wx
+
+    def unhook(ok: bool) -> None:
+        if not origs:
+            return
+        for (cls, name), o in origs.items():
+            setattr(cls, name, o)
+        origs.clear()
+        B.write_cache_meta, B.write_cache_meta_ex = orig_wm, orig_wx
+        if ok:
+            for k in ("meta", "ex", "files"):
+                state[k].update(pending[k])
+            with open(side, "w") as f:
+                json.dump(state, f)
+        else:
+            with open(side, "w") as f:
+                json.dump({"tainted": True, "meta": {}, "ex": {}, "files": {}}, f)
+
+    return unhook
 
 
 def new_ctl(tick: int = 0, record: bool = True, kill_after: int | None = None, fail_writes: Any = (),
